@@ -45,9 +45,23 @@ func (v *Vue) evalAttributes(ctx VueContext, n *html.Node) (map[string]any, erro
 				return nil, fmt.Errorf("error evaluating attr %s: %w", boundName, err)
 			}
 			if !helpers.IsTruthy(boundValue) {
+				// A falsy value omits the attribute from the output, but it is
+				// still the value an included component receives for this prop.
+				if _, have := results[boundName]; !have {
+					if _, resolved := ctx.stack.Resolve(val); resolved || boundValue != "" {
+						results[boundName] = boundValue
+					}
+				}
 				continue
 			}
-			if _, seen := results[boundName]; !seen {
+			seen := false
+			for _, name := range boundOrder {
+				if name == boundName {
+					seen = true
+					break
+				}
+			}
+			if !seen {
 				boundOrder = append(boundOrder, boundName)
 			}
 			results[boundName] = boundValue
